@@ -14,6 +14,16 @@ Theorem C12_checker_filter : forall member L rejected out,
 Proof. exact check_filtered_spec. Qed.
 Print Assumptions C12_checker_filter.
 
+(** The same for an arbitrary deterministic filter [acc] (used for automaton
+    filters, which reject every program containing a rejected sub-program). *)
+Theorem C12_checker_filter_any : forall member L (acc : prog -> bool) out,
+  check_filtered_gen member L acc out = true <->
+  NoDup out
+  /\ (forall p, In p out -> member p = true /\ acc p = true)
+  /\ (forall p, In p L -> forallb acc (subterms p) = true -> In p out).
+Proof. exact check_filtered_gen_spec. Qed.
+Print Assumptions C12_checker_filter_any.
+
 (** For a filter closed under sub-programs this is exactly the accepted part of the language. *)
 Theorem C12_closed_filter : forall member L rejected out,
   NoDup L -> (forall p, In p L <-> member p = true) ->
